@@ -582,8 +582,8 @@ theorem appendPipes_nil_of_not_mem (pipe : Nat → List Nat) (g : Nat) (fds : Li
     appendPipes pipe g fds l = pipe l := by
   simp [appendPipes, h]
 
-theorem raise_inv (s : State) (g : Nat) (h : Inv s) : Inv (raise s g).1 := by
-  unfold raise
+theorem raiseW_inv (s : State) (g : Nat) (wf : List Nat) (h : Inv s) : Inv (raiseW s g wf).1 := by
+  unfold raiseW
   split
   · exact h
   · exact h
@@ -592,9 +592,10 @@ theorem raise_inv (s : State) (g : Nat) (h : Inv s) : Inv (raise s g).1 := by
     refine inv_of_core h ?_ rfl rfl rfl rfl
     refine ⟨hc.fdsIff, hc.osTbox, hc.oldOk, hc.invalid, hc.entries, hc.pipeIff, ?_, hc.ndSubs, hc.ndFds⟩
     intro l hp
-    show appendPipes s.pipe g (ctxOf s g).fds l = []
-    have hnot : l ∉ (ctxOf s g).fds := by
+    show appendPipes s.pipe g ((ctxOf s g).fds.filter (wrOk s wf)) l = []
+    have hnot : l ∉ (ctxOf s g).fds.filter (wrOk s wf) := by
       intro hm
+      have hm := (List.mem_filter.1 hm).1
       have : subsOf s l g ≠ [] := (h.core.fdsIff g l).1 hm
       have : s.subs l ≠ [] := (h.core.subs_ne_nil_iff l).2 ⟨g, this⟩
       have := (h.core.pipeIff l).2 this
@@ -602,6 +603,8 @@ theorem raise_inv (s : State) (g : Nat) (h : Inv s) : Inv (raise s g).1 := by
       rw [hp'] at this; cases this
     rw [appendPipes_nil_of_not_mem _ _ _ _ hnot]
     exact h.core.pipeNil l hp
+
+theorem raise_inv (s : State) (g : Nat) (h : Inv s) : Inv (raise s g).1 := raiseW_inv s g [] h
 
 /-! ### callbacks (scripts) and a loop pass -/
 
@@ -612,10 +615,10 @@ theorem nodup_dedup (l : List Nat) : (dedup l).Nodup := by
 
 theorem act_inv (s : State) (l : Nat) (a : Act) (h : Inv s) : Inv (act repaired s l a) := by
   cases a with
-  | enable j => simp only [act]; split <;> first | exact enable_inv s j h | exact h
-  | disable j => simp only [act]; split <;> first | exact disable_inv s j h | exact h
-  | destroy j => simp only [act]; split <;> first | exact destroy_inv s j h | exact h
-  | init j sg o => simp only [act]; split <;> first | exact initEv_inv s j _ o h (nodup_dedup sg) | exact h
+  | enable j => exact enable_inv s j h
+  | disable j => exact disable_inv s j h
+  | destroy j => exact destroy_inv s j h
+  | init j sg o => exact initEv_inv s j _ o h (nodup_dedup sg)
 
 theorem runScript_inv (s : State) (l : Nat) (as : List Act) (h : Inv s) : Inv (runScript repaired s l as) := by
   induction as generalizing s with
@@ -782,6 +785,30 @@ theorem passLoop_ind (l : Nat) (ord : List Nat) (P : State → Prop)
 theorem pass_inv (s : State) (l : Nat) (ord : List Nat) (h : Inv s) : Inv (pass repaired s l ord) :=
   (passLoop_ind l ord (fun _ => True) (fun _ _ _ _ => trivial) (fun _ _ _ => trivial) _ s h trivial).1
 
+/-- generic induction over the read loop with the kernel's `read()` answers as an oracle -/
+theorem passLoopC_ind (l : Nat) (ord : List Nat) (P : State → Prop)
+    (hChunk : ∀ s items, Inv s → P s → P (passChunk repaired s l ord items))
+    (hPipe : ∀ s p, P s → P { s with pipe := upd s.pipe l p })
+    (fuel : Nat) (cs : List (Option Nat)) (s : State) (h : Inv s) (hp : P s) :
+    Inv (passLoopC repaired l ord cs fuel s) ∧ P (passLoopC repaired l ord cs fuel s) := by
+  induction fuel generalizing s cs with
+  | zero => unfold passLoopC; exact ⟨h, hp⟩
+  | succ n ih =>
+    unfold passLoopC
+    by_cases hpipe : s.hasPipe l = true
+    · simp only [hpipe, Bool.not_true, Bool.false_eq_true, ↓reduceIte]
+      split
+      · exact ⟨h, hp⟩
+      · split
+        · exact ⟨h, hp⟩
+        · have h1 := setPipe_inv s l ((s.pipe l).drop (nextLen cs)) h hpipe
+          exact ih _ _ (passChunk_inv _ l ord _ h1) (hChunk _ _ h1 (hPipe s _ hp))
+    · simp only [hpipe, Bool.not_false, ↓reduceIte]; exact ⟨h, hp⟩
+
+theorem passC_inv (s : State) (l : Nat) (ord : List Nat) (cs : List (Option Nat)) (h : Inv s) :
+    Inv (passC repaired s l ord cs) :=
+  (passLoopC_ind l ord (fun _ => True) (fun _ _ _ _ => trivial) (fun _ _ _ => trivial) _ cs s h trivial).1
+
 theorem step_inv (s : State) (op : Op) (h : Inv s) (hv : valid s op = true) : Inv (step repaired s op) := by
   cases op with
   | newEv l sc => exact newEv_inv s l sc h
@@ -792,6 +819,9 @@ theorem step_inv (s : State) (op : Op) (h : Inv s) (hv : valid s op = true) : In
   | setDisp g d => exact setDisp_inv s g d h hv
   | raise g => exact raise_inv s g h
   | pass l ord => exact pass_inv s l ord h
+  | raiseW g wf => exact raiseW_inv s g wf h
+  | passC l ord cs => exact passC_inv s l ord cs h
+  | setCap b => exact inv_of_core h (core_congr h.core rfl rfl rfl rfl rfl) rfl rfl rfl rfl
 
 /-- every state reachable by a history of the property satisfies the invariant -/
 theorem exec_inv (s : State) (ops : List Op) (h : Inv s) (s' : State) (he : exec repaired s ops = some s') : Inv s' := by
